@@ -113,6 +113,7 @@ func verifLAnnounce(s *LocalStore, g *verifLGhost, h, p int, now int64) {
 }
 
 func verifLSetup() (*LocalStore, *clock.Mock, int64, int64) {
+	verif.Option("solver_bv_tactic", 1)
 	ttl := verif.Int64("ttl")
 	verif.Assume(ttl >= 1)
 	verif.Assume(ttl <= verifLMaxT)
